@@ -33,6 +33,19 @@ for L in (1, 2, 4):
             got = lentil.detector.collect_charge(img, wave_nm, sp)
             a.check(bool(np.allclose(got, want, rtol=1e-9)), {'L': L, 'spectrum_unit': unit, 'cube_unit': 'default (nm)'})
 
+    # one spectrum object used again: a second exposure in another unit, back in the first, and the same object for
+    # all three colour channels must keep giving the charge of the same efficiency curve
+    with a.case({'L': L, 'form': 'same spectrum object reused'}):
+        sp = Spectrum(grid_nm.copy(), curve.copy(), 'nm')
+        for cube_unit, g in (('um', 1e-3), ('um', 1e-3), ('nm', 1.0), ('angstrom', 10.0), ('nm', 1.0)):
+            got = lentil.detector.collect_charge(img, wave_nm * g, sp, waveunit=cube_unit)
+            a.check(bool(np.allclose(got, want, rtol=1e-9)), {'L': L, 'reused_spectrum_call_in': cube_unit})
+        sp = Spectrum(grid_nm.copy(), curve.copy(), 'nm')
+        pimg = rng.uniform(0, 50, size=(L, 4, 4))
+        got = lentil.detector.collect_charge_bayer(pimg, wave_nm * 1e-3, sp, sp, sp, 'RGGB', waveunit='um')
+        a.check(bool(np.allclose(got, np.einsum('ijk,i->jk', pimg, np.interp(wave_nm, grid_nm, curve)), rtol=1e-9)),
+                {'L': L, 'same_spectrum_for_all_channels': 'um'})
+
 b = Bounded('detector.collect_charge_bayer::reference_selection', 'patterns RGGB GRBG BGGR RGBGBRBRG, oversample 1..5, 2 image sizes each; random per-channel QE vectors',
             'every sub-pixel uses the QE of the colour of its native pixel; equal QE reproduces collect_charge; channels sum to the flattened image')
 for pat, os_ in itertools.product(('RGGB', 'GRBG', 'BGGR', 'RGBGBRBRG'), range(1, 6)):
